@@ -7,6 +7,8 @@ import (
 	"path"
 	"path/filepath"
 	"runtime"
+
+	"github.com/microsoft/yardl/tooling/internal/verifhook"
 )
 
 // Writes the given contents to the file at the given path, unless the file already
@@ -14,8 +16,10 @@ import (
 func WriteFileIfNeeded(filename string, contents []byte, perm os.FileMode) error {
 	existingContents, err := os.ReadFile(filename)
 	if err == nil && bytes.Equal(existingContents, contents) {
+		verifhook.Event("file.write", "path", filename, "changed", "false")
 		return nil
 	}
+	verifhook.Event("file.write", "path", filename, "changed", "true")
 
 	return os.WriteFile(filename, contents, perm)
 }
